@@ -18,7 +18,10 @@ func (x *Exec) strLit(s string) Term {
 	if t, ok := x.strLits[s]; ok {
 		return t
 	}
-	name := fmt.Sprintf("strlit!%d", len(x.strLits))
+	name := "strlit_" + fmt.Sprintf("%x", s)
+	if len(name) > 40 {
+		name = fmt.Sprintf("strlit_%s_%d", sha([]byte(s)), len(s))
+	}
 	t := x.d.constant(name, "Str")
 	// distinct literals are distinct strings
 	for o, ot := range x.strLits {
@@ -246,6 +249,9 @@ func (x *Exec) exprs(st *State, fr *Frame, e ast.Expr) []Term {
 	case *ast.SliceExpr:
 		return one(x.slice(st, fr, e))
 	case *ast.StarExpr:
+		if loc, ok := x.matchUnsafe(st, fr, e); ok {
+			return one(x.unsafeLoad(st, loc, e))
+		}
 		p := x.expr(st, fr, e.X)
 		x.nilCheck(st, p, e)
 		t := x.info.TypeOf(e)
@@ -287,6 +293,10 @@ func calleeIdent(e ast.Expr) *ast.Ident {
 		return e
 	case *ast.SelectorExpr:
 		return e.Sel
+	case *ast.IndexExpr:
+		return calleeIdent(e.X)
+	case *ast.IndexListExpr:
+		return calleeIdent(e.X)
 	}
 	return nil
 }
@@ -870,9 +880,12 @@ func (x *Exec) composite(st *State, fr *Frame, e *ast.CompositeLit) Term {
 	case *types.Slice:
 		so := x.sortOf(t)
 		r := Term{S: "nil_" + so, Sort: so}
-		for i := len(e.Elts) - 1; i >= 0; i-- {
-			v := x.convertTo(st, x.expr(st, fr, e.Elts[i]), u.Elem(), e.Elts[i])
-			r = tApp(so, "cons_"+so, v, r)
+		var vals []Term
+		for _, el := range e.Elts { // evaluation in source order
+			vals = append(vals, x.convertTo(st, x.expr(st, fr, el), u.Elem(), el))
+		}
+		for i := len(vals) - 1; i >= 0; i-- {
+			r = tApp(so, "cons_"+so, vals[i], r)
 		}
 		r.Ty = t
 		return r
@@ -884,10 +897,9 @@ func (x *Exec) composite(st *State, fr *Frame, e *ast.CompositeLit) Term {
 func (x *Exec) index(st *State, e *ast.IndexExpr, b, i Term) Term {
 	si := x.d.sorts[b.Sort]
 	if si != nil && si.Kind == "list" {
-		x.oblige(st, "safety", "index", tAnd(tApp("Bool", "<=", tInt(0), i), tApp("Bool", "<", i, tApp("Int", "len_"+b.Sort, b))), e, "index in range")
-		if i.S == "0" {
-			return tApp(si.Elem, "hd_"+b.Sort, b)
-		}
+		inb := tAnd(tApp("Bool", "<=", tInt(0), i), tApp("Bool", "<", i, tApp("Int", "len_"+b.Sort, b)))
+		x.oblige(st, "safety", "index", inb, e, "index in range")
+		st.assume(inb)
 		return tApp(si.Elem, "nth_"+b.Sort, b, i)
 	}
 	if si != nil && si.Kind == "array" {
@@ -936,7 +948,9 @@ func (x *Exec) slice(st *State, fr *Frame, e *ast.SliceExpr) Term {
 		// Go allows high up to cap(b); the mathematical-sequence model has no capacity, so
 		// the check demands high <= len (a slice expression that reaches beyond len into the
 		// backing array is reported, cf. finding F8).
-		x.oblige(st, "safety", "slice-bounds", tAnd(tApp("Bool", "<=", tInt(0), lo), tApp("Bool", "<=", lo, hi), tApp("Bool", "<=", hi, ln)), e, "0 <= low <= high <= len")
+		bounds := tAnd(tApp("Bool", "<=", tInt(0), lo), tApp("Bool", "<=", lo, hi), tApp("Bool", "<=", hi, ln))
+		x.oblige(st, "safety", "slice-bounds", bounds, e, "0 <= low <= high <= len")
+		st.assume(bounds)
 		r = tApp(b.Sort, "take_"+b.Sort, hi, r)
 	} else {
 		x.oblige(st, "safety", "slice-bounds", tAnd(tApp("Bool", "<=", tInt(0), lo), tApp("Bool", "<=", lo, ln)), e, "0 <= low <= len")
